@@ -92,14 +92,14 @@ Print Assumptions C05_declared_safe_element.
    related as in C02 (same format, unsafe integers/strings/bools differing), the two outputs have
    the same text outside envelopes - literals, diagnostics, type names, declared-safe operands. *)
 Theorem C05_sprintf_leaf_safe_text_is_public : forall fuel env f a1 a2 o1 o2,
-  osane (orc env) -> no_star f = true -> Forall2 lrel a1 a2 ->
+  osane (orc env) -> hook_ok env -> no_star f = true -> Forall2 lrel a1 a2 ->
   sprintf fuel env f a1 = ROk o1 -> sprintf fuel env f a2 = ROk o2 ->
   forall ops1 ops2, o_log o1 = ops1 ++ [OTake] -> o_log o2 = ops2 ++ [OTake] ->
   rawok (o_log o1) = true -> rawok (o_log o2) = true ->
   ptail_ok_from init ops1 = true -> ptail_ok_from init ops2 = true ->
   del_env (lex (o_bytes o1)) = del_env (lex (o_bytes o2)).
 Proof.
-  intros fuel env f a1 a2 o1 o2 Ho Hns Ha H1 H2 ops1 ops2 E1 E2 R1 R2 T1 T2.
+  intros fuel env f a1 a2 o1 o2 Ho Hhk Hns Ha H1 H2 ops1 ops2 E1 E2 R1 R2 T1 T2.
   assert (forall o, Redactable (o_bytes o) -> wf (lex (o_bytes o)) = true) as Hwf
     by (intros o Hr; unfold Redactable, redactableb in Hr; apply andb_prop in Hr; exact (proj1 Hr)).
   pose proof (Hwf o1 (proj1 (sprintf_redactable fuel env f a1 o1 H1 R1))) as W1.
@@ -107,7 +107,7 @@ Proof.
   assert (rawok ops1 = true) as R1'.
   { rewrite E1 in R1. unfold rawok in *. clear - R1. revert R1. generalize init. induction ops1 as [|o r IH]; intros b H; [reflexivity|].
     cbn [app rawok_from] in *. apply andb_prop in H. destruct H as [Ha Hb]. rewrite Ha. cbn [andb]. now apply IH. }
-  pose proof (sprintf_leaf_noninterference fuel env f a1 a2 o1 o2 Ho Hns Ha H1 H2 ops1 ops2 E1 E2 R1' T1 T2) as E.
+  pose proof (sprintf_leaf_noninterference fuel env f a1 a2 o1 o2 Ho Hhk Hns Ha H1 H2 ops1 ops2 E1 E2 R1' T1 T2) as E.
   rewrite <- (redact_tok_del_env _ W1), <- (redact_tok_del_env _ W2), <- (lex_redact_b _ W1), <- (lex_redact_b _ W2). now rewrite E.
 Qed.
 Print Assumptions C05_sprintf_leaf_safe_text_is_public.
@@ -115,14 +115,14 @@ Print Assumptions C05_sprintf_leaf_safe_text_is_public.
 (* ... and for trees of slices, arrays, structs, maps and interface slots over such leaves:
    punctuation, field names and type names are public, every unsafe leaf is enveloped *)
 Theorem C05_sprintf_tree_safe_text_is_public : forall fuel env f a1 a2 o1 o2,
-  osane (orc env) -> no_star f = true -> Forall2 (arel (hooked env)) a1 a2 ->
+  osane (orc env) -> hook_ok env -> no_star f = true -> Forall2 arel a1 a2 ->
   sprintf fuel env f a1 = ROk o1 -> sprintf fuel env f a2 = ROk o2 ->
   forall ops1 ops2, o_log o1 = ops1 ++ [OTake] -> o_log o2 = ops2 ++ [OTake] ->
   rawok (o_log o1) = true -> rawok (o_log o2) = true ->
   ptail_ok_from init ops1 = true -> ptail_ok_from init ops2 = true ->
   del_env (lex (o_bytes o1)) = del_env (lex (o_bytes o2)).
 Proof.
-  intros fuel env f a1 a2 o1 o2 Ho Hns Ha H1 H2 ops1 ops2 E1 E2 R1 R2 T1 T2.
+  intros fuel env f a1 a2 o1 o2 Ho Hhk Hns Ha H1 H2 ops1 ops2 E1 E2 R1 R2 T1 T2.
   assert (forall o, Redactable (o_bytes o) -> wf (lex (o_bytes o)) = true) as Hwf
     by (intros o Hr; unfold Redactable, redactableb in Hr; apply andb_prop in Hr; exact (proj1 Hr)).
   pose proof (Hwf o1 (proj1 (sprintf_redactable fuel env f a1 o1 H1 R1))) as W1.
@@ -130,7 +130,7 @@ Proof.
   assert (rawok ops1 = true) as R1'.
   { rewrite E1 in R1. unfold rawok in *. clear - R1. revert R1. generalize init. induction ops1 as [|o r IH]; intros b H; [reflexivity|].
     cbn [app rawok_from] in *. apply andb_prop in H. destruct H as [Ha Hb]. rewrite Ha. cbn [andb]. now apply IH. }
-  pose proof (sprintf_tree_noninterference fuel env f a1 a2 o1 o2 Ho Hns Ha H1 H2 ops1 ops2 E1 E2 R1' T1 T2) as E.
+  pose proof (sprintf_tree_noninterference fuel env f a1 a2 o1 o2 Ho Hhk Hns Ha H1 H2 ops1 ops2 E1 E2 R1' T1 T2) as E.
   rewrite <- (redact_tok_del_env _ W1), <- (redact_tok_del_env _ W2), <- (lex_redact_b _ W1), <- (lex_redact_b _ W2). now rewrite E.
 Qed.
 Print Assumptions C05_sprintf_tree_safe_text_is_public.
